@@ -7,3 +7,4 @@ import Rpki.Props.C10
 #print axioms Rpki.Props.C10.validateAt_iff
 #print axioms Rpki.Props.C10.single_fault_rejects
 #print axioms Rpki.Props.C10.created_validates_iff
+#print axioms Rpki.Props.C10.accepted_message_octets
